@@ -188,3 +188,5 @@ func sessionHash(stmts []ast.Node) uint64 {
 	}
 	return h
 }
+
+func setTight(b bool) { memory.VerifTight = b }
